@@ -203,7 +203,7 @@ PLAN = {
              "distinct text/row",
     ),
     "C17": dict(
-        streams=[("corpus", 0, 0), ("codec", 12000, 120000), ("std", 6000, 60000), ("streamprog", 4000, 60000), ("typed", 6000, 80000), ("e2x", 0, 0)],
+        streams=[("corpus", 0, 0), ("codec", 12000, 120000), ("std", 6000, 60000), ("streamprog", 4000, 60000), ("typed", 6000, 80000), ("float", 8000, 120000), ("e2x", 0, 0)],
         theorems=[],
         facts=[F + "safeSet_eq", F + "htmlSafeSet_eq", F + "hex_eq", F + "useNumber_eq", F + "codecConditions_eq",
                F + "tokenStates_eq", F + "streamShape_eq"],
@@ -217,6 +217,12 @@ PLAN = {
              "stream typed: MarshalEscaped on typed values of "
              "run-time generated and declared struct types (tags, options, embedding to depth 3, clashing names, integer-keyed maps, "
              "arrays, []byte, pointers, interfaces; no floats) against the model marshalTyped, and against encoding/json; "
+             "stream float (FLOAT lines): Marshal of float64 / float32 values and of `,string` fields (bit patterns: uniform, sparse "
+             "mantissas, powers of two and ten and their neighbours, the 1e-6 / 1e21 cutoffs of both widths, subnormals, extremes, "
+             "binades where two shortest candidates tie, NaN/Inf) and Unmarshal of number literals into float64 / float32 / pointers / "
+             "interface{} (1-40 random digits, exact midpoints between adjacent floats written out in up to 1000 digits and perturbed in "
+             "the last place, overflow thresholds, huge and tiny exponents, signed zeros, the classical hard cases) in the fork AND in "
+             "encoding/json, each compared with JP/Codec/Float.lean bit for bit and byte for byte; "
              "non-trivial = C17 predicate ok",
     ),
     "C18": dict(
@@ -230,7 +236,7 @@ PLAN = {
         theorems=[],
         facts=[F + "legacyUsesStdlib_eq", F + "legacyConditions_eq"],
         rule="as C02/C03/C06/C07 but against the staged root package, within the domain the statement gives (object/array patches, "
-             "float64-exact numbers for CreateMergePatch, escape-free container-rooted texts for Equal)",
+             "object roots with numbers spelled the way Go prints a float64 for CreateMergePatch (values compared up to `0 == -0`; the model Legacy.createMergePatchF is compared on ALL inputs), escape-free container-rooted texts for Equal)",
     ),
     "C20": dict(
         streams=[("cli", 400, 4000)],
